@@ -80,6 +80,70 @@ func vstubNewConfigWithFile(name string, opts ...ucfg.Option) (*ucfg.Config, err
 	return &ucfg.Config{}, nil
 }
 
+// Other ways to get at the policy file: os.ReadFile, or os.Open + io.ReadAll, possibly behind an
+// io.LimitReader, then yaml.NewConfig on the bytes. The file has an arbitrary length; what a limited
+// read hands on is the whole file only if the file fits. A configuration made from less than the whole
+// file denotes ANOTHER policy (vShort): running the target under it fails C15.whole_file.
+var (
+	vFileLen int
+	vShort   bool
+	vLimit   int
+	vLimited bool
+)
+
+func vFileLength() int {
+	if vFileLen < 0 {
+		vFileLen = vInt("file.len")
+		vAssume(vFileLen >= 0 && vFileLen < 1<<22) // bound: policy files below 4 MiB (the native replay allocates them)
+	}
+	return vFileLen
+}
+
+func vstubOpen(name string) (*os.File, error) {
+	vParseTried = true
+	if vChoice("file.missing", 2) == 1 {
+		vParseErr = true
+		return nil, errors.New("open failed")
+	}
+	return &os.File{}, nil
+}
+func vstubFileClose(f *os.File) error { return nil }
+func vstubReadFile(name string) ([]byte, error) {
+	vParseTried = true
+	if vChoice("file.missing", 2) == 1 {
+		vParseErr = true
+		return nil, errors.New("read failed")
+	}
+	return vAbsBytes(vFileLength(), 'p'), nil
+}
+func vstubLimitReader(r io.Reader, n int64) io.Reader {
+	vLimited, vLimit = true, int(n)
+	return r
+}
+func vstubReadAll(r io.Reader) ([]byte, error) {
+	if vChoice("file.read_fails", 2) == 1 {
+		vParseErr = true
+		return nil, errors.New("read failed")
+	}
+	n := vFileLength()
+	if vLimited && n > vLimit {
+		vShort = true // the tail of the file was not read
+		n = vLimit
+	}
+	// the data has the length that was read, so that code which compares it with its limit can notice
+	return vAbsBytes(n, 'p'), nil
+}
+func vstubMetaData(m ucfg.Meta) ucfg.Option { return nil }
+func vstubPathSep(sep string) ucfg.Option  { return nil }
+func vstubNewConfig(in []byte, opts ...ucfg.Option) (*ucfg.Config, error) {
+	vParseTried = true
+	if vChoice("file.malformed", 2) == 1 {
+		vParseErr = true
+		return nil, errors.New("parse failed")
+	}
+	return &ucfg.Config{}, nil
+}
+
 func vstubUnpack(c *ucfg.Config, to interface{}, opts ...ucfg.Option) error {
 	if vChoice("unpack.fails", 2) == 1 {
 		vParseErr = true
@@ -217,6 +281,7 @@ func H_SandboxMain() {
 	vEvents, vExitCode, vParseTried, vParseErr, vLoadErr, vLoadCalls, vExecCalls, vClock = nil, -1, false, false, false, 0, 0, 0
 	vUnpackPolicy = nil
 	vParseAt, vLoadAt, vExecAt = 0, 0, 0
+	vFileLen, vShort, vLimit, vLimited = -1, false, 0, false
 
 	code := vRun(main)
 	vAssert(code != 1, "C15.nopanic")
@@ -259,6 +324,7 @@ func H_SandboxMain() {
 		} else {
 			vAssert(false, "C15.policy_passed")
 		}
+		vAssert(!vShort, "C15.whole_file")
 		vAssert(vLoaded.Flag&seccomp.FilterFlagTSync != 0, "C15.tsync")
 		vAssert(vLoaded.NoNewPrivs == vFlagNNP, "C15.nnp_flag")
 		vAssert(vExecName == vArgs[0] && len(vExecArgs) == argc-1, "C15.target")
